@@ -7,10 +7,10 @@ import (
 	"github.com/dgraph-io/badger/v4"
 )
 
-// VerifWriteSnapshotRecord stores only the snapshot body and its topology entry (the two
+// VerifC28WriteSnapshotRecord stores only the snapshot body and its topology entry (the two
 // records readSnapshotWithTopo follows), without finalizing transactions, for the C28
 // correspondence harness.
-func (s *BadgerStore) VerifWriteSnapshotRecord(snap *common.SnapshotWithTopologicalOrder) error {
+func (s *BadgerStore) VerifC28WriteSnapshotRecord(snap *common.SnapshotWithTopologicalOrder) error {
 	txn := s.snapshotsDB.NewTransaction(true)
 	defer txn.Discard()
 	key := graphSnapshotKey(snap.NodeId, snap.RoundNumber, snap.PayloadHash())
@@ -25,9 +25,9 @@ func (s *BadgerStore) VerifWriteSnapshotRecord(snap *common.SnapshotWithTopologi
 	return txn.Commit()
 }
 
-// VerifConsensusSnapshotRecords dumps the CONSENSUSSNAPSHOT key space in key order:
+// VerifC28ConsensusSnapshotRecords dumps the CONSENSUSSNAPSHOT key space in key order:
 // timestamp, snapshot hash, value.
-func (s *BadgerStore) VerifConsensusSnapshotRecords() (tss []uint64, snaps [][]byte, vals [][]byte) {
+func (s *BadgerStore) VerifC28ConsensusSnapshotRecords() (tss []uint64, snaps [][]byte, vals [][]byte) {
 	txn := s.snapshotsDB.NewTransaction(false)
 	defer txn.Discard()
 	opts := badger.DefaultIteratorOptions
